@@ -219,7 +219,7 @@ func init() {
 	register(&Prop{
 		ID: "C12", Level: "model_checking",
 		Technique: "stateless model checking of SendBatch with the simulated cluster's executor as observer: invalid batches at every position, every per-call outcome script x events x positions x schedules; attempts, execution counts and per-region order judged server-side",
-		Rule: "invalid batches: a call of another table / a repeated call / a non-batchable call / a scan at every position of a 3-call batch, cold and warm cache: rejected as a whole and no request reaches any server. Valid batches: the C07 configuration space (1-3 calls over 1-2 regions on 1-2 servers, all outcome sequences of bounded length, cancellation / dropped table / closed client positioned after the k-th operation). Oracle at the servers: no call executed twice (increments counted in the model table), no call re-sent after a success or a non-retryable error, nothing sent to a region that does not own the key, same-region calls of one multi-request in batch order. Non-trivial = any script or event.",
+		Rule: "invalid batches: a call of another table / a repeated call / a non-batchable call / a scan at every position of a 3-call batch, cold and warm cache: rejected as a whole and no request reaches any server. Valid batches: the C07 configuration space (1-3 calls over 1-2 regions on 1-2 servers, all outcome sequences of bounded length, cancellation / dropped table / closed client positioned after the k-th operation). Oracle at the servers: no call executed twice (increments counted in the model table), no call re-sent after a success or a non-retryable error, nothing sent to a region that does not own the key, same-region calls of one multi-request in batch order. Non-trivial = any script or event. Additionally cancel / Close at every scheduling step of SendBatch (as C07).",
 		Assumptions: []string{"tier L: the order inside one multi-request is the order in which the simulated region client is handed the calls (the real multi assembly is covered by C05/C02)"},
 		Quick:       150 * time.Second, Thorough: 25 * time.Minute,
 		Units: c12Units,
